@@ -57,7 +57,9 @@ TextProgs == { Call("duration", <<Lit(S(x))>>) : x \in Texts }
 Init == prog = Lit(Null) /\ exp = Null /\ aux = 0
 \* (the instant is chosen in a first step so that TLC's workers share the expansion over zones)
 PickInstant == FAMILY = "acc" /\ prog = Lit(Null) /\ aux = 0 /\ \E t \in Instants : prog' = Lit(Ts(t)) /\ aux' = 1 /\ exp' = Null
-PickZone == FAMILY = "acc" /\ aux = 1 /\ \E z \in Zones \cup {<<>>} : prog' = AccProg(BigOf(prog.v), z) /\ aux' = 2 /\ exp' = Eval(prog', <<>>)
+\* (the instants around daylight-saving transitions are paired with the zones that have such transitions, UTC and one fixed offset)
+ZonesFor(t) == IF t \in DstInstants \ Boundaries THEN { Z_NewYork, Z_Paris, Z_Sydney, Z_UTC, OffText(-210), <<>> } ELSE Zones \cup {<<>>}
+PickZone == FAMILY = "acc" /\ aux = 1 /\ \E z \in ZonesFor(BigOf(prog.v)) : prog' = AccProg(BigOf(prog.v), z) /\ aux' = 2 /\ exp' = Eval(prog', <<>>)
 Next == PickInstant \/ PickZone \/
         /\ FAMILY # "acc" /\ prog = Lit(Null)
         /\ CASE FAMILY = "acc" -> FALSE
